@@ -31,6 +31,8 @@ def load_corpus():
 def run_one(args):
     mut, src_root = args
     mid = mut['id']
+    if mut.get('revert'):
+        return run_revert(mut, src_root)
     path = os.path.join(src_root, mut['file'])
     with open(path, encoding='utf-8') as f:
         text = f.read()
@@ -78,6 +80,46 @@ def run_one(args):
             if bad:
                 return mid, 'FALSE-ALARM', str(bad)[:400]
             return mid, 'silent', ''
+    finally:
+        shutil.rmtree(tmp, ignore_errors=True)
+
+
+def run_revert(mut, src_root):
+    """Pre-fix twin: the tree with one `fix:` commit reverted."""
+    mid = mut['id']
+    pr = subprocess.run(['git', '-C', src_root, 'show', '--format=',
+                         mut['revert'], '--', 'txdbus'],
+                        capture_output=True, text=True)
+    if pr.returncode != 0 or not pr.stdout.strip():
+        return mid, 'inapplicable', 'commit %s not found' % mut['revert']
+    tmp = tempfile.mkdtemp(prefix='txsa-mut-')
+    try:
+        shutil.copytree(os.path.join(src_root, 'txdbus'),
+                        os.path.join(tmp, 'txdbus'))
+        ap = subprocess.run(['patch', '-R', '-p1', '-s', '-d', tmp],
+                            input=pr.stdout, capture_output=True, text=True)
+        if ap.returncode != 0:
+            return mid, 'inapplicable', 'reverse patch does not apply: ' + \
+                ap.stdout[-200:]
+        ok = False
+        why = []
+        for pid in mut['props']:
+            env = dict(os.environ, TXSA_EVIDENCE_OUT=os.path.join(
+                tmp, 'ev-%s.json' % pid))
+            r = subprocess.run([os.path.join(VERIF, 'check'), pid, '--src',
+                                tmp], capture_output=True, text=True,
+                               env=env, timeout=300)
+            keys = re.findall(r'^FINDING (\S+)', r.stdout, re.M)
+            exp = mut.get('expect', [])
+            hit = [k for k in keys if not exp or
+                   any(k.startswith(e) for e in exp)]
+            if r.returncode == 1 and hit:
+                ok = True
+                why.append('%s fired: %s' % (pid, hit[0]))
+            else:
+                why.append('%s rc=%d keys=%s' % (pid, r.returncode,
+                                                  keys[:3]))
+        return mid, 'caught' if ok else 'MISSED', '; '.join(why)
     finally:
         shutil.rmtree(tmp, ignore_errors=True)
 
